@@ -365,6 +365,10 @@ func (s *Session) Write(b []byte) (n int, err error) {
 	for len(b) > 0 {
 		sizeToSend := mathext.Min(len(b), maxPDU)
 		if sent, err := s.writeChunk(b[:sizeToSend]); sent == 0 || err != nil {
+			// The chunks written so far were accepted and are relayed.
+			if n > 0 && !s.isClient && s.downloadBytes != nil {
+				s.downloadBytes.Add(int64(n))
+			}
 			return n, err
 		}
 		b = b[sizeToSend:]
